@@ -102,6 +102,8 @@ def obligations(tier):
         if len(names) == 3 and d > 3:
             continue
         obs.append(Ob(f"funnel[{'+'.join(names)},{kind}]", ob_funnel(names, "base", kind), 300 if d <= 3 else 900))
+    for names in (("D3",), ("DM2",), ("B2",), ("C", "D3"), ("DM1", "B1"), ("C",)):
+        obs.append(Ob(f"funnel[{'+'.join(names)},int]", ob_funnel(names, "base", "int"), 300))
     obs.append(Ob("funnel_extra_coords[C+D3]", ob_funnel(("C", "D3"), "base", "real", extra=2), 120))
     obs.append(Ob("funnel_max[C+D3]", ob_funnel(("C", "D3"), "base", "ext", dname="max"), 120))
     # the objective is arbitrary user code and may edit its argument in place: reported positions must not alias it
